@@ -360,7 +360,9 @@ def fullCfg (toks : List String) : Cfg :=
     | some v => if v == "-" then [] else (v.splitOn ",").filterMap (fun n => mutOfName n mu)
     | none => G.mutsOfMask (kvNat toks "mask") mu
   { c with mutators := ms,
-           rateBits := G.clampRate (hexToUInt64 (kvD toks "rate" "3fb999999999999a")) }
+           -- `raw=1`: the harness wrote the configuration into the public fields, bypassing the builder's clamp
+           rateBits := if kvBool toks "raw" then hexToUInt64 (kvD toks "rate" "3fb999999999999a")
+                       else G.clampRate (hexToUInt64 (kvD toks "rate" "3fb999999999999a")) }
 
 def firstDiff : List UInt8 → List UInt8 → Nat → Option Nat
   | [], [], _ => none
